@@ -346,6 +346,9 @@ class Mini:
                     raise AnalysisBroken('mini-interpreter: increment of `%s`' % t.text()[:40])
                 old = env[t.n]
                 d = 1 if '+' in op else -1
+                if isinstance(old, Ref) and '*' in (t.t or '') and d == 1:
+                    env[t.n] = Ptr([], 0)          # one past the single object `&x` points to: any access is out of bounds
+                    return old if op.startswith('post') else env[t.n]
                 env[t.n] = type(old)(old.arr, old.i + d) if isinstance(old, Ptr) else old + d
                 return old if op.startswith('post') else env[t.n]
             v = self.ev(e.child('sub'), env)
@@ -425,7 +428,11 @@ class Mini:
                     r = self.ev(e.child('rhs'), env)
                     if e.op != '=':
                         import operator as O
-                        r = {'+=': O.add, '-=': O.sub, '*=': O.mul, '|=': O.or_, '&=': O.and_, '^=': O.xor}[e.op](o_.get(f_, 0), r)
+                        cur_ = o_.get(f_, 0)
+                        if isinstance(cur_, Ptr) and e.op in ('+=', '-='):
+                            r = type(cur_)(cur_.arr, cur_.i + (int(r) if e.op == '+=' else -int(r)))      # a pointer member advanced
+                        else:
+                            r = {'+=': O.add, '-=': O.sub, '*=': O.mul, '|=': O.or_, '&=': O.and_, '^=': O.xor}[e.op](cur_, r)
                     o_[f_] = Obj(r) if isinstance(r, Obj) and '*' not in (t.t or '') else _mask(t.ct or t.t, r)
                     return r
             if t.k == 'MemberExpr' and t.n:
